@@ -190,6 +190,7 @@ func rowsKV(rows [][2]uint64) [][]any {
 
 type c12Drv struct {
 	pooled  *vegeta.Histogram
+	reps    map[*vegeta.Histogram]vegeta.Reporter
 	tr      *Tracer
 	cases   int
 	samples []any
@@ -220,7 +221,11 @@ func (d *c12Drv) render(h *vegeta.Histogram) {
 	})
 	d.guard("HistogramReporter", func() {
 		var buf bytes.Buffer
-		if err := vegeta.NewHistogramReporter(h).Report(&buf); err != nil {
+		rep := d.reps[h] // a reporter made earlier (before the bounds were set, or for an earlier round of a re-used histogram), if any
+		if rep == nil {
+			rep = vegeta.NewHistogramReporter(h)
+		}
+		if err := rep.Report(&buf); err != nil {
 			d.tr.Emit("Panic", KV{"what": "HistogramReporter", "value": err.Error()})
 			return
 		}
@@ -238,7 +243,17 @@ func (d *c12Drv) render(h *vegeta.Histogram) {
 func (d *c12Drv) run(bounds []uint64, lats []uint64, expect []int) {
 	d.cases++
 	d.tr.Emit("Reset", KV{"bounds": Bigs(bounds)})
-	h := &vegeta.Histogram{Buckets: toDurs(bounds)}
+	h := &vegeta.Histogram{}
+	if d.cases%2 == 0 { // the reporter is built first, the bounds are set afterwards: it reports the histogram as it is when asked
+		if d.reps == nil {
+			d.reps = map[*vegeta.Histogram]vegeta.Reporter{}
+		}
+		if len(d.reps) > 64 {
+			d.reps = map[*vegeta.Histogram]vegeta.Reporter{d.pooled: d.reps[d.pooled]}
+		}
+		d.reps[h] = vegeta.NewHistogramReporter(h)
+	}
+	h.Buckets = toDurs(bounds)
 	if d.cases%3 == 0 && d.pooled != nil {
 		// a histogram value re-used for a new round through its exported fields: counts truncated (the memory kept), new bounds
 		h = d.pooled
